@@ -883,7 +883,12 @@ where
             let z = S::rand_point(&mut rng, &inst.sizes);
             let z2 = S::rand_point(&mut rng, &inst.sizes);
             for (j, p) in inst.polys.iter().enumerate() {
-                let (pl, pt) = match j { 0 => ("pt0", z.clone()), 1 => ("pt1", z.clone()), _ => ("pt2", z2.clone()) };
+                // the two equal point values sit under labels (pt0, pt1), (pt0, pt2) or (pt1, pt2) in turn
+                let (pl, pt) = match ((i / 3) % 3, j) {
+                    (0, 0) => ("pt0", z.clone()), (0, 1) => ("pt1", z.clone()), (0, _) => ("pt2", z2.clone()),
+                    (1, 0) => ("pt0", z.clone()), (1, 1) => ("pt2", z.clone()), (1, _) => ("pt1", z2.clone()),
+                    (_, 0) => ("pt1", z.clone()), (_, 1) => ("pt2", z.clone()), (_, _) => ("pt0", z2.clone()),
+                };
                 qs.insert((p.label().clone(), (pl.to_string(), pt.clone())));
                 ev.insert((p.label().clone(), pt.clone()), p.evaluate(&pt));
             }
